@@ -86,10 +86,14 @@ var commonReal = []string{"every line of qframe built from /repo's working tree 
 var props = map[string]propCfg{
 	"C12": {
 		ID: "C12", Level: "exploration",
-		Rule:   "cases = (generated RFC 4180 document, reader configuration, read plan: sizes/cuts/EOF style, scan-buffer capacity), all drawn from the rapid bit stream of the worker seed; a case is non-trivial when at least one Read ended before both the caller's buffer and the document did, at a position inside a field, quote pair, CRLF or at a field start; distinct = distinct hash of (document bytes, realised read boundaries, buffer capacity, EOF style)",
-		Phases: []phase{{Engine: "csvfrag", Test: "TestC12", QuickChecks: 50000, ThoroughChecks: 250000}},
+		Rule: "cases = (generated RFC 4180 document, reader configuration, read plan: sizes/cuts/EOF style, scan-buffer capacity), all drawn from the rapid bit stream of the worker seed; a case is non-trivial when at least one Read ended before both the caller's buffer and the document did, at a position inside a field, quote pair, CRLF or at a field start; distinct = distinct hash of (document bytes, realised read boundaries, buffer capacity, EOF style). Second phase: a few hundred documents of 4096..17000 rows with declared enum columns, read twice with different deliveries under the Go race detector (ReadCSV may only use goroutines of its own if the result stays a function of the bytes)",
+		Phases: []phase{
+			{Engine: "csvfrag", Test: "TestC12", QuickChecks: 50000, ThoroughChecks: 250000},
+			// large typed documents under the race detector (an implementation may be tempted to parallelise)
+			{Engine: "csvfrag", Test: "TestC12Race", Race: true, Cpu: 4, QuickChecks: 12, ThoroughChecks: 60},
+		},
 		Real:   commonReal,
-		Stub:   []string{"io.Reader (SimReader: fragmentation, EOF style)", "initial scan-buffer capacity (verif hook, 1..64 bytes or the shipped 1024)"},
+		Stub:   []string{"io.Reader (SimReader: fragmentation, EOF style, optionally also io.WriterTo / io.ByteReader)", "initial scan-buffer capacity (verif hook, 1..64 bytes or the shipped 1024)"},
 		Assume: []string{"documents are drawn from the unambiguous well-formed space described in DESIGN.md §3 (no CR inside cells; a one-column empty last line always terminated)", "readers never return (0, nil)"},
 	},
 	"C13": {
@@ -499,7 +503,7 @@ func runWorker(bin string, sc *scratch, id, tier string, ph phase, round, w int,
 		}
 		if res.signature == "" {
 			if ph.Race && (res.exit == 66 || strings.Contains(res.output, "WARNING: DATA RACE")) {
-				res.signature = "C11:race:" + raceSite(res.output)
+				res.signature = id + ":race:" + raceSite(res.output)
 				res.message = "data race reported by the Go race detector"
 			} else if strings.Contains(res.output, "[rapid] panic after") || strings.Contains(res.output, "[rapid] flaky test") {
 				// a panic inside the harness or a non-deterministic failure is trouble of the machinery
